@@ -67,10 +67,13 @@ CLAIMS = {
          "vectors reach the final map (hash iteration order) cannot change any answer (C11_order_free, keys distinct). Determinism is "
          "exercised on the code by rebuilding in-process and re-running every case in other processes (fresh hash seeds) with "
          "verbatim comparison.", "DESIGN.md 5 (C11)"),
- "C12": ("Five theorems (Props/C12.v): for every chunk/interrupt schedule without a hard failure the stream of line reads equals that of the "
+ "C12": ("Nine theorems (Props/C12.v): for every chunk/interrupt schedule without a hard failure the stream of line reads equals that of the "
          "flat bytes (std read_until transcribed); a raw read reports exactly the bytes consumed and returns the text without LF / CRLF; a blank "
          "line between sections changes the grammar's items only in quoted line numbers; C12_eol: the same text lines terminated by LF or by CRLF "
-         "are read back as the same texts; C12_final_newline: so are they when the last line lacks its terminator. Tied to the code by the "
+         "are read back as the same texts; C12_final_newline: so are they when the last line lacks its terminator; C12_same_texts / C12_eol_machine / "
+         "C12_final_newline_machine: streams of successful reads with the same texts give the same parsed lines, grammar items (sections, error kind "
+         "and payload) and build result, hence LF vs CRLF and final newline or none give the same machine; C12_padding_anywhere: a blank line after "
+         "any number of complete sections changes items and build result only in the line number quoted by a blank-line error. Tied to the code by the "
          "correspondence check over all encodings, paddings and chunkings.", "DESIGN.md 5 (C12), 4.2 (L8)"),
  "C13": ("Six theorems (Props/C13.v): decimal print/parse, header, data-record and line round trips for everything the parser accepts (hence "
          "canonical text prints back byte-identically), and re-serialised sections parse back to equal sections for every accepted file. Tied to "
